@@ -18,10 +18,12 @@ structure HandlerShape where
   cleanupLocked : Bool
   sendGuarded : Bool
   cleanupChecksClosed : Bool
+  /-- `Handle` contains no `close(…)`: the subscriber channel is closed by `Cleanup` only (under its `closed` flag) -/
+  handleNeverCloses : Bool := true
   deriving DecidableEq, Repr, Inhabited
 
 def HandlerShape.good (h : HandlerShape) : Bool :=
-  h.handleLocked && h.cleanupLocked && h.sendGuarded && h.cleanupChecksClosed
+  h.handleLocked && h.cleanupLocked && h.sendGuarded && h.cleanupChecksClosed && h.handleNeverCloses
 
 structure Skeleton where
   monitor : HandlerShape
